@@ -283,8 +283,26 @@ func c12Run(c *fw.Ctx, ops []c12Op) {
 					}
 					return
 				}
-				if m.tampered {
-					c.Violation("apply-with-ref-entry-mismatch-accepted", nil, "the policy or staging ref disagreed with its latest log entry, ApplyPolicy succeeded", cs)
+				// refs vs their latest log entry, as they were when Apply started (independent walker)
+				latest := map[string]string{}
+				for _, e := range logBefore {
+					if e.Kind == "reference" || e.Kind == "propagation" {
+						latest[e.Ref] = e.Target
+					}
+				}
+				zero := strings.Repeat("0", 40)
+				mismatch := ""
+				if polBefore != zero && latest[policy.PolicyRef] != polBefore {
+					mismatch = fmt.Sprintf("refs/gittuf/policy was %s, its latest entry records %q", polBefore, latest[policy.PolicyRef])
+				}
+				if polBefore == zero && latest[policy.PolicyRef] != "" {
+					mismatch = "refs/gittuf/policy is absent but has a log entry"
+				}
+				if stBefore != zero && latest[policy.PolicyStagingRef] != stBefore {
+					mismatch = fmt.Sprintf("refs/gittuf/policy-staging was %s, its latest entry records %q", stBefore, latest[policy.PolicyStagingRef])
+				}
+				if mismatch != "" {
+					c.Violation("apply-with-ref-entry-mismatch-accepted", nil, mismatch+"; ApplyPolicy succeeded", cs)
 					stop = true
 					return
 				}
@@ -387,7 +405,7 @@ func (m *c12Model) resetToApplied(g *scen.Git) {
 
 func runC12(c *fw.Ctx) {
 	r := c.Rand(uint64(1200 + c.Shard))
-	n := c.Pick(120, 3000) / c.NShards
+	n := c.Pick(32, 3000) / c.NShards
 	if n < 2 {
 		n = 2
 	}
